@@ -502,6 +502,11 @@ func runC16(r *core.Run) {
 		second := append([]byte("RIM-of-the-previous-firmware:"), genuine[:64]...)
 		os.WriteFile(filepath.Join(efiRoot, "FirmwareRIMPrev-"+googleGUID), append([]byte{7, 0, 0, 0}, second...), 0o644)
 		rd := opts.UEFIVariableReader
+		type held struct {
+			name      string
+			got, want []byte
+		}
+		var kept []held
 		for i, step := range []struct {
 			name string
 			want []byte
@@ -510,6 +515,17 @@ func runC16(r *core.Run) {
 			if rerr != nil || !bytes.Equal(got, step.want) {
 				r.Fail("local-evidence-altered", "variable-reread", "read %d through one reader: variable %s returned %d bytes (err %v), its file holds %d", i, step.name, len(got), rerr, len(step.want))
 			}
+			kept = append(kept, held{step.name, got, step.want})
+		}
+		// what a caller was handed stays what it was handed: a later read through the same reader
+		// does not rewrite earlier results (the extraction result above included)
+		for i, h := range kept {
+			if !bytes.Equal(h.got, h.want) {
+				r.Fail("local-evidence-altered", "earlier-result-rewritten", "the bytes returned by read %d (%s) changed after later reads through the same reader", i, h.name)
+			}
+		}
+		if want != nil && err == nil && !bytes.Equal(out, want) {
+			r.Fail("local-evidence-altered", "earlier-result-rewritten", "%s: the extraction result changed after later reads through the same variable reader", where)
 		}
 		r.Probe("second-variable-read")
 	}
